@@ -345,6 +345,11 @@ func (ss *SegStore) doLogEventFilling(ple *ParsedLogEvent, tsKey *string) (bool,
 	for i := uint16(0); i < ple.numCols; i++ {
 		cname := ple.allCnames[i]
 		ctype := ple.allCvalsTypeLen[i][0]
+		if ss.wipBlock.columnsInBlock[cname] {
+			// this record already has a value for this flattened name (e.g. {"a.b":1,"a":{"b":2}});
+			// a second value would shift every later record of the column
+			continue
+		}
 		colWip, _, matchedCol = ss.initAndBackFillColumn(cname, ValTypeToSSDType(ctype), matchedCol)
 
 		switch ctype {
